@@ -147,7 +147,11 @@ class Namespace(MutableMapping):
 
     def is_immutable_value(self, name):
         ns = self.nonlocals.get(name, self)
-        return name in ns.immutables
+        while ns is not None:
+            if name in ns.names:
+                return name in ns.immutables
+            ns = ns.parent
+        return False
 
     def set_immutable_value(self, name):
         ns = self.nonlocals.get(name, self)
@@ -207,12 +211,14 @@ class CallListerVisitor(ast.NodeVisitor):
         self.namespace = Namespace()
         self.calls = []
         self.to_revisit = []
+        self.revisiting = False
         self.varargs = None
         self.varkwargs = None
 
         self.process_parameters(func.args, main=True)
         for stmt in func.body:
             self.visit(stmt)
+        self.revisiting = True
         for node, ns in self.to_revisit:
             self.namespace = ns
             self.process_Call(node)
@@ -348,7 +354,9 @@ class CallListerVisitor(ast.NodeVisitor):
             hide_args, hide_kwargs))
 
     def visit_Call(self, node):
-        if self.namespace.parent is None:
+        if self.namespace.parent is None or self.revisiting:
+            # calls met while a deferred call is being processed are its own
+            # arguments: they run before it does
             self.process_Call(node)
         else:
             self.to_revisit.append((node, self.namespace))
